@@ -44,7 +44,7 @@ deriving Repr, DecidableEq
 structure Snap where
   steps : Nat
   attrs : List (Nat × Val)
-  agents : List AgentS           -- `model.agents` in registry order
+  agents : List AgentS           -- `model.agents` in its current order (creation order until reordered in place)
 deriving Repr, DecidableEq
 
 inductive Err where
@@ -169,10 +169,53 @@ def mLoop (sn : Snap) : List MRep → List (List Val) → List (List Val) × Opt
     | .ok v => ((col ++ [v]) :: (mLoop sn rs cols).1, (mLoop sn rs cols).2)
   | _, cols => (cols, none)
 
+/-- in-place reorderings of `model.agents`: `shuffle(inplace=True)` with the permutation the random source
+    happens to draw (`rev` = reversed, `rot` = first to the end; any permutation is a product of such draws)
+    and `sort(key, ascending, inplace=True)` = Python's stable `sorted(..., reverse=not ascending)` by
+    `unique_id` or by an int-valued key read off attribute `a` -/
+inductive ReKind where
+  | rev
+  | rot
+  | byId (asc : Bool)
+  | byAttr (a : Nat) (asc : Bool)
+deriving Repr, DecidableEq
+
+/-- the sort key `byAttr a` uses: the attribute if it is an int, else 0 -/
+def intKey (a : Nat) (ag : AgentS) : Int :=
+  match getAttr ag.attrs a with
+  | .int i => i
+  | _ => 0
+
+/-- stable insertion sort (structural, so that examples reduce in the kernel): `x` goes in front of the first
+    element it is `le` to — elements that compare equal keep their order -/
+def insertBy (le : α → α → Bool) (x : α) : List α → List α
+  | [] => [x]
+  | y :: ys => if le x y then x :: y :: ys else y :: insertBy le x ys
+
+def sortStable (le : α → α → Bool) : List α → List α
+  | [] => []
+  | x :: xs => insertBy le x (sortStable le xs)
+
+/-- `sorted(agents, key=key, reverse=not asc)`: stable in both directions -/
+def sortBy (key : AgentS → Int) (asc : Bool) (l : List AgentS) : List AgentS :=
+  if asc then sortStable (fun x y => decide (key x ≤ key y)) l else sortStable (fun x y => decide (key y ≤ key x)) l
+
+def reorderList : ReKind → List AgentS → List AgentS
+  | .rev, l => l.reverse
+  | .rot, l => l.drop 1 ++ l.take 1
+  | .byId asc, l => sortBy (fun ag => (ag.id : Int)) asc l
+  | .byAttr a asc, l => sortBy (intKey a) asc l
+
+/-- `model.agents_by_type[T]` is an AgentSet of its own: it keeps the order in which the agents were created
+    (= ascending `unique_id`) whatever is done to `model.agents` -/
+def byCreation (l : List AgentS) : List AgentS := sortStable (fun x y => decide (x.id ≤ y.id)) l
+
 /-- the agents an agent-type reporter keyed by `T` looks at (`_record_agenttype`, with the T3 repair:
-    a class whose instances are all gone is treated like one that never had any) -/
+    a class whose instances are all gone is treated like one that never had any).  A class with direct
+    instances is read from `agents_by_type[T]` (creation order), any other from `model.agents` (its current
+    order) -/
 def typeAgents (cfg : Cfg) (s : State) (T : Nat) : Option (List AgentS) :=
-  if s.types.contains T && s.agents.any (fun a => a.ty == T) then some (s.agents.filter fun a => a.ty == T)
+  if s.types.contains T && s.agents.any (fun a => a.ty == T) then some (byCreation (s.agents.filter fun a => a.ty == T))
   else if cfg.isAgentClass T then some (s.agents.filter fun a => cfg.isSub a.ty T)
   else none
 
@@ -236,6 +279,7 @@ inductive Op where
   | collect
   | row (t : Nat) (r : List (Nat × Val)) (ignoreMissing : Bool)
   | stopAt (k : Nat)                                -- `if model.steps >= k: model.running = False`
+  | reorder (k : ReKind)                            -- `model.agents.shuffle(inplace=True)` / `.sort(…, inplace=True)`
 deriving Repr, DecidableEq
 
 def updAgent (id : Nat) (f : AgentS → AgentS) (l : List AgentS) : List AgentS :=
@@ -260,6 +304,7 @@ def apply (cfg : Cfg) (s : State) : Op → State × Option Err
   | .collect => collect cfg s
   | .row t r ign => addTableRow s t r ign
   | .stopAt k => ({ s with running := if s.steps ≥ k then false else s.running }, none)
+  | .reorder k => ({ s with agents := reorderList k s.agents }, none)
 
 /-- a history; a call that raises is caught by the caller and the history goes on -/
 def run (cfg : Cfg) (s : State) (ops : List Op) : State := ops.foldl (fun s op => (apply cfg s op).1) s
